@@ -173,7 +173,21 @@ int flush_pubsub_msgs(void *data, const char *key, void *value) {
     const bool stopping_mod = key == NULL;
     bool poisonpilled = false;
     
-    m_queue_t *flushed = m_queue_new(mem_dtor);
+    m_queue_t *flushed = NULL;
+    if (!stopping_mod && m_mod_is(mod, M_MOD_RUNNING) && m_queue_len(mod->batch.events) > 0) {
+        /*
+         * Events already read and still being batched were sent before anything left in the pipe:
+         * hand them over first, to keep send order.
+         */
+        m_queue_t *fresh = m_queue_new(mem_dtor);
+        if (fresh) {
+            flushed = mod->batch.events;
+            mod->batch.events = fresh;
+        }
+    }
+    if (!flushed) {
+        flushed = m_queue_new(mem_dtor);
+    }
     if (!flushed) {
         M_WARN("Failed to create flushing queue.\n");
     }
